@@ -47,6 +47,13 @@ def make_workload(seed, i):
     pkg = M.gen_package(rng.next())
     kind = rng.weighted([("plain", 3), ("versions", 4), ("invalid", 2)])
     desc = {"i": i, "kind": kind, "pkg_seed": pkg.render_seed}
+    sh = rng.fork("shared")
+    if len(pkg.imports) >= 2 and sh.chance(0.6):
+        # the same type name in two imported packages (each namespace has its own)
+        nm = "Common%s" % sh.choice(M.WORDS).capitalize()
+        for k, imp in enumerate(pkg.imports[:2]):
+            imp.files[sorted(imp.files)[0]].append(M.Record(nm, (), [("f%d" % k, M.Prim(sh.choice(["int32", "string"])))]))
+        desc["type_name_shared_by_two_imports"] = nm
     if kind in ("versions", "invalid") and rng.chance(0.8 if kind == "versions" else 0.4):
         if rng.chance(0.5):
             # give the oldest version extra protocols that the newest no longer has: every removed protocol
@@ -56,7 +63,8 @@ def make_workload(seed, i):
             for k in range(r2.randint(2, 5)):
                 pkg.files[fn].append(M.Protocol("Gone%s%d" % (r2.choice(M.WORDS).capitalize(), k), [("s0", M.Prim(r2.choice(["int32", "string", "float64"])), r2.chance(0.5))]))
             desc["removed_protocols"] = True
-        pkg = E.with_versions(pkg, rng.fork("v"), rng.randint(1, 3), partial=rng.chance(0.7))
+        pkg = E.with_versions(pkg, rng.fork("v"), rng.randint(1, 3), partial=rng.chance(0.7), layout=rng.fork("layout").choice(["siblings", "siblings", "archive"]),
+                              order=rng.fork("order").choice(["oldest_first", "newest_first", "shuffled"]))
         if desc.get("removed_protocols"):
             for fn2 in pkg.files:
                 pkg.files[fn2] = [d for d in pkg.files[fn2] if not (isinstance(d, M.Protocol) and d.name.startswith("Gone"))]
@@ -68,7 +76,7 @@ def make_workload(seed, i):
         what = []
         for j in range(n):
             target = rng.choice(sorted({p.rsplit("/", 1)[0] for p in files}))
-            f2, d = E.invalidate(files, target, rng.fork("inv", j), rng.choice(E.INVALID_KINDS[1:5] + ["stream_in_record"]))
+            f2, d = E.invalidate(files, target, rng.fork("inv", j), rng.choice(E.INVALID_KINDS[1:5] + ["stream_in_record", "unqualified_import_ref", "unqualified_import_ref"]))
             if f2:
                 files, _ = f2, what.append(d)
         desc["invalidations"] = what
